@@ -285,6 +285,25 @@ pub fn generate(g: &mut Gen, thorough: bool) {
         let d = data(&mut g.rng, 3);
         g.push(super::op_line("default", &[], &[], &format!("cart ellps={name}"), "both", "F", &d), "model-every-builtin-ellipsoid", true);
     }
+    // whole-number parameters at and beyond the ends of their ranges (the arithmetic on them is integer arithmetic)
+    for v in ["0", "1", "60", "61", "-1", "255", "256", "65535", "65536", "4294967295", "4294967296", "9223372036854775807", "9223372036854775808", "18446744073709551615", "18446744073709551616", "-9223372036854775808", "1e3", "1.0", "00", "+1"] {
+        for def in [format!("utm zone={v}"), format!("butm zone={v}"), format!("utm zone={v} south"), format!("addone | utm zone={v}"), format!("stack push=1,2 | stack roll={v},1 | stack pop=1,2"), format!("stack push=1,2 | stack roll=2,{v}"), format!("stack push={v}"), format!("stack pop={v}"), format!("axisswap order={v}"), format!("stack push=1,2,3 | stack unroll=3,{v}"), format!("stack push=1 | stack flip={v}")] {
+            let d = data(&mut g.rng, 3);
+            g.push(case("default", &[], &def, &d), "oracle-whole-number-ranges", true);
+        }
+        let d = data(&mut g.rng, 3);
+        g.push(case("plain", &[], &format!("+proj=utm +zone={v}"), &d), "oracle-whole-number-ranges", true);
+        g.push(super::op_line("default", &[], &[], &format!("utm zone={v}"), "both", "F", &d), "model-whole-number-ranges", true);
+    }
+    // PROJ syntax with steps that hold nothing, or modifiers only
+    for def in [
+        "+proj=pipeline +step +inv", "proj=pipeline step proj=utm zone=32 step inv", "inv # ... proj ...", "+proj=pipeline +step", "+proj=pipeline +step +step +proj=addone", "proj=pipeline step inv step proj=addone",
+        "+proj=pipeline +inv", "+proj=pipeline +step +omit_fwd", "proj=pipeline step", "proj=pipeline", "+step +inv +proj=pipeline", "proj= inv", "proj=pipeline step inv inv",
+    ] {
+        let d = data(&mut g.rng, 2);
+        g.push(case("plain", &[], def, &d), "oracle-proj-empty-steps", true);
+        g.push(format!("PROJ\t{}", escape(def)), "proj-empty-steps", true);
+    }
     // ellipsoids of every shape a text can describe: next to a sphere, next to a disc (rf next to 1), beyond it,
     // prolate, tiny, huge, of size zero - on every operator that has an ellipsoid, both directions, ordinary
     // coordinates (the iterations of the inverses are where such shapes bite)
